@@ -264,8 +264,11 @@ def _out_of_flow_layout(context, box, index, child, new_children,
         # Check that child doesn’t overflow page.
         page_overflow = context.overflows_page(
             bottom_space, new_child.position_y + new_child.height)
+        page_is_empty_with_no_children = page_is_empty and not any(
+            child for child in new_children
+            if not isinstance(child, AbsolutePlaceholder))
         add_child = (
-            (page_is_empty and not new_children) or
+            page_is_empty_with_no_children or
             not page_overflow or
             box.is_monolithic())
         if add_child:
